@@ -154,9 +154,10 @@ fn build_column_array(
             Ok(Arc::new(BooleanArray::from(values)))
         }
         DataType::Null => {
-            // All nulls
-            let values: Vec<Option<i32>> = vec![None; tuples.len()];
-            Ok(Arc::new(Int32Array::from(values)))
+            // All nulls. The column's Arrow type is Null (see `DataType::to_arrow`), so
+            // the array must be a NullArray: any other array type is rejected by
+            // `RecordBatch::try_new` and the relation could never be flushed.
+            Ok(Arc::new(arrow::array::NullArray::new(tuples.len())))
         }
         DataType::Vector { dim } => {
             // Build array from vectors - use FixedSizeList when dimension is known
@@ -255,7 +256,8 @@ fn build_column_array(
 
 /// Extract a Value from an Arrow array at a given index
 fn extract_value_from_array(array: &dyn Array, row_idx: usize) -> Result<Value, ArrowConvertError> {
-    if array.is_null(row_idx) {
+    // A NullArray carries no validity buffer, so `is_null` alone does not cover it
+    if array.data_type() == &ArrowDataType::Null || array.is_null(row_idx) {
         return Ok(Value::Null);
     }
 
@@ -335,7 +337,7 @@ fn empty_array_for_type(dt: &DataType) -> ArrayRef {
         DataType::Float64 => Arc::new(Float64Array::from(Vec::<f64>::new())),
         DataType::String => Arc::new(StringArray::from(Vec::<&str>::new())),
         DataType::Bool => Arc::new(BooleanArray::from(Vec::<bool>::new())),
-        DataType::Null => Arc::new(Int32Array::from(Vec::<Option<i32>>::new())),
+        DataType::Null => Arc::new(arrow::array::NullArray::new(0)),
         DataType::Vector { dim } => {
             let field = Arc::new(Field::new("item", ArrowDataType::Float32, false));
             if let Some(fixed_dim) = dim {
